@@ -46,7 +46,7 @@ CHECKS.update({
              text="Exploration, exhaustive on 64 squares, 256 one-byte, 65536 two-byte strings, ALL 2^32 four-byte move strings, five-byte strings over the move alphabet plus per-position sweeps over all 256 byte values, all 4096 moves in every case/separator spelling, all short op lists on the five enum iterators, and every provided Iterator/DoubleEndedIterator method (count, last, nth, nth_back, fold, try_fold, rfold, min, max, position, find, skip, take, step_by, rev, chain, zip, ...) in every (front, back) consumption state of the enum, square and line iterators against slice iterators; generated byte strings of other lengths.",
              ref="4 C19", note=LEVEL_NOTE_ENUM),
  "C20": dict(tech="schedule enumeration with a harness-owned interleaving of two OS threads against a state model (all schedules of length <= 4/5, proptest beyond), plus a schedule-independent invariant under real parallelism",
-             text="Exploration, exhaustive over all operation-granularity interleavings of length <= 4 (quick) / 5 (thorough) of the eight operations on two threads; after every step both threads' is_enabled() must be explained by the model (global flag + admissible override states). Longer schedules are generated; a free-running mode checks the override invariant under real parallelism.",
+             text="Exploration, exhaustive over all operation-granularity interleavings of length <= 4 (quick) / 5 (thorough) of the eight operations on two threads; after every step both threads' is_enabled() must be explained by the model (global flag + admissible override states). Schedules of length <= 3 / 4 are additionally run each in a process of its own, so that static state of the crate is in its initial condition. Longer schedules are generated; a free-running mode checks the override invariant under real parallelism.",
              ref="4 C20", note="Trusted base: the state model in harness/vcheck/src/c20.rs; the claim (from the property) that each operation touches the single global atomic at most once, which makes operation-granularity interleavings complete; std threads and channels."),
 })
 
@@ -66,7 +66,7 @@ CHECKS.update({
              text="Exploration: generated scripts over every operation family the property names (construct via parser/builder incl. pawns on back ranks and clocks up to u16::MAX, generate/mask/iterate/remove, apply, hash, print in every format, perft, search with counting timeouts, repetition table, book descent, bitboard iterators with n up to usize::MAX) plus directed boundary families (18-entry capacity positions, 218-move position, 16-bit clocks, >255 repetitions, 65536+ cheap deepening passes, and the accepted-but-unreachable family 'en-passant marker while in check from a piece other than the double-stepped pawn' with three plies of perft) run in a profile where unchecked fast paths, debug assertions and arithmetic overflow trap. Any panic, abort or signal is a violation.",
              ref="4 C07", note="Trusted base: rustc's debug-assertion / overflow-check instrumentation and std's unsafe-precondition checks; proptest. UB that neither traps in the checked profile nor crashes is not observable (stated in DESIGN.md section 7)."),
  "C11": dict(tech="fault/schedule enumeration over the timeout-expiry instant k with a counting Timeout (every k up to the second pass boundary, boundaries +-3, generated k), legality oracle from the reference model",
-             text="Exploration: for each generated position one instrumented run yields the poll counts at which deepening passes start; the search is then re-run with the limit expiring at poll k for every k up to min(s_2, 300/800), around every boundary and at generated values. Release and checked (overflow-trapping) profiles. For each k: returns within a poll bound after expiry, no panic (also with INFO/DEBUG logging enabled for small k and around boundaries), move None or reference-legal, None iff no legal move, Some once the first pass finished or whenever the search returns by itself, Some monotone in k. If the engine's pass log line is missing the boundaries are recovered by bisection over public results.",
+             text="Exploration: for each generated position one instrumented run yields the poll counts at which deepening passes start; the search is then re-run with the limit expiring at poll k for every k up to min(s_2, 300/800), around every boundary and at generated values. Release and checked (overflow-trapping) profiles. For each k: returns within a poll bound after expiry, no panic (also with INFO/DEBUG logging enabled for small k and around boundaries), move None or reference-legal, None iff no legal move, Some once the first pass finished or whenever the search returns by itself, Some monotone in k. If the engine's pass log line is missing the boundaries are recovered by bisection over public results. A worker stalled on one case is triaged by a node-bounded replay (deterministic 'never consults its limit' verdict). Front-end stage: named roots and underpromotion-mate positions searched through the plugin's stable interface (move handed to the host must be legal), and plugin-vs-plugin games under the real chess-cli bot-fight referee (host panic = violation).",
              ref="4 C11", note=LEVEL_NOTE_ENGINE),
  "C12": dict(tech="property-based testing with constructed mating nets and harvested positions; oracle = reference enumeration of mating moves",
              text="Exploration: positions with and without a mate in one (mating-net constructors, sparse placements, playouts; half-move clock at 96..100; mated position pre-filled twice in the repetition table) are searched with the limit at the first/second pass boundary and without limit; a mating move with the mover's MateIn(1) score must come back when one exists, the score must never appear otherwise, and it must always come with a move that mates. Descendants with exactly one legal move (preferring those where it mates) and tactical back-rank positions are harvested/constructed because random generation does not reach them.",
